@@ -86,7 +86,19 @@ def run_case(case):
         if after != before:
             diff = [p for p in set(before) | set(after) if before.get(p) != after.get(p)]
             out.fail("dry_run_changed", "--dry-run modified the file system: %s" % sorted(diff)[:4], **tags)
-        printed = {p for p in toplevel(before) if ("would remove %s\n" % p) in ra.out}
+        # names may contain newlines: records are matched longest first and consumed, so that
+        # 'files/a<LF>b' (printed for an info without payload) is not read as the existing 'files/a'
+        cands = set(toplevel(before))
+        for q in list(cands):
+            if "/info/" in q and q.endswith(".trashinfo"):
+                cands.add(q.replace("/info/", "/files/", 1)[:-len(".trashinfo")])
+        text, printed = ra.out, set()
+        for q in sorted(cands, key=len, reverse=True):
+            rec = "would remove %s\n" % q
+            if rec in text:
+                text = text.replace(rec, "")
+                if q in before:
+                    printed.add(q)
         if printed != removed:
             out.fail("dry_run_mismatch", "printed-and-existing %s != removed by the real run %s "
                      "(only printed: %s, only removed: %s)" % (
